@@ -535,8 +535,8 @@ use trippy_packet::icmp_extension::mpls_label_stack::MplsLabelStackPacket;
 
 fn obj_json(o: &ExtObject) -> Value {
     match o {
-        ExtObject::Mpls(ms) => json!({"cls":1,"sub":1,"plen":ms.len()*4,"mpls":ms.iter().map(|m| json!([m.label,m.exp,m.bos,m.ttl])).collect::<Vec<_>>()}),
-        ExtObject::Other { class, ctype, payload } => json!({"cls":class,"sub":ctype,"plen":payload.len(),"mpls":[]}),
+        ExtObject::Mpls(ms) => json!({"cls":1,"sub":1,"plen":ms.len()*4,"olen":4+ms.len()*4,"mpls":ms.iter().map(|m| json!([m.label,m.exp,m.bos,m.ttl])).collect::<Vec<_>>()}),
+        ExtObject::Other { class, ctype, payload } => json!({"cls":class,"sub":ctype,"plen":payload.len(),"olen":4+payload.len(),"mpls":[]}),
     }
 }
 
@@ -612,7 +612,7 @@ fn parse_ext(fam: u8, te: bool, msg: &[u8]) -> Option<Value> {
                             }
                         }
                     }
-                    objs.push(json!({"cls":o.get_class_num().id(),"sub":o.get_class_subtype().0,"plen":pay.len(),"mpls":members}));
+                    objs.push(json!({"cls":o.get_class_num().id(),"sub":o.get_class_subtype().0,"plen":pay.len(),"olen":o.get_length(),"mpls":members}));
                 }
             }
         }
